@@ -160,6 +160,18 @@ pub enum OpKind {
     RemoveFile {
         path: String,
     },
+    /// harness-side damage to stored state (C11). target: "wal:<k>" (k-th WAL file, sorted),
+    /// "index", "clean", "index_tmp", "clean_tmp", "new:<name>"; action: "flip" (bit `arg` of byte at `off`),
+    /// "zero" (len bytes at off), "truncate" (to off), "garbage" (len pseudo-random bytes at off, extending the file),
+    /// "create" (new file of len pseudo-random bytes), "mkdir"
+    Mutate {
+        dir: String,
+        target: String,
+        action: String,
+        off: u64,
+        len: u64,
+        arg: u64,
+    },
 }
 
 impl OpKind {
